@@ -63,21 +63,56 @@ func (x *Exec) walkWithInvariant(c *CallCtx, d collDesc, h int, fn *ssa.Function
 			return nil
 		}
 	}
-	inRange := func(key string) string {
-		if rng.Prefix != "" {
-			return eq(app("fst", key), rng.Prefix)
+	isPair := strings.HasPrefix(ks, "(Pair")
+	cmpLT := func(a, b, sort string) string {
+		if sort == "Int" {
+			return app("<", a, b)
 		}
-		return "true"
+		return app("<", x.bcmpDecl(a, b), "0")
+	}
+	k1Sort, k2Sort := "Int", "Int"
+	if isPair {
+		if n, ok := types.Unalias(d.keyTy).(*types.Named); ok && n.TypeArgs() != nil && n.TypeArgs().Len() == 2 {
+			k1Sort, k2Sort = e.Sort(n.TypeArgs().At(0)), e.Sort(n.TypeArgs().At(1))
+		}
+	}
+	inRange := func(key string) string {
+		conj := []string{"true"}
+		if rng.Prefix != "" {
+			conj = append(conj, eq(app("fst", key), rng.Prefix))
+		}
+		if rng.Until != "" {
+			conj = append(conj, not(cmpLT(rng.Until, app("fst", key), k1Sort)))
+		}
+		comp, cs := key, ks
+		if isPair {
+			comp, cs = app("snd", key), k2Sort
+		}
+		if rng.Lo != "" {
+			if rng.LoIncl {
+				conj = append(conj, not(cmpLT(comp, rng.Lo, cs)))
+			} else {
+				conj = append(conj, cmpLT(rng.Lo, comp, cs))
+			}
+		}
+		if rng.Hi != "" {
+			if rng.HiIncl {
+				conj = append(conj, not(cmpLT(rng.Hi, comp, cs)))
+			} else {
+				conj = append(conj, cmpLT(comp, rng.Hi, cs))
+			}
+		}
+		return and(conj...)
 	}
 	lt := func(a, b string) string {
 		switch {
-		case strings.HasPrefix(ks, "(Pair"):
+		case isPair && rng.Prefix != "":
 			// within a prefix range the order is that of the second component
-			sa, sb := app("snd", a), app("snd", b)
-			if strings.HasSuffix(ks, " Int)") {
-				return app("<", sa, sb)
-			}
-			return app("<", x.bcmpDecl(sa, sb), "0")
+			return cmpLT(app("snd", a), app("snd", b), k2Sort)
+		case isPair:
+			// key order of a pair key: lexicographic
+			fa, fb := app("fst", a), app("fst", b)
+			return or(cmpLT(fa, fb, k1Sort), and(eq(fa, fb), cmpLT(app("snd", a), app("snd", b), k2Sort)))
 		case ks == "Int":
 			return app("<", a, b)
 		default:
@@ -85,7 +120,7 @@ func (x *Exec) walkWithInvariant(c *CallCtx, d collDesc, h int, fn *ssa.Function
 		}
 	}
 	st.Assume(and(app(">=", wn, "0"), app("<", wn, two63)))
-	if rng.Prefix == "" {
+	if rng.whole() {
 		// the number of entries of a whole-map walk is the cardinality of the map
 		card := e.DeclFun("card."+sanitize(d.sort), []string{d.sort}, "Int")
 		st.Assume(eq(wn, app(card, m0)))
